@@ -6,7 +6,7 @@ namespace {
 
 void nop_cb(void *) {}
 
-void case_impl(Ctx &c, bool late) {
+void case_impl(Ctx &c, bool late, bool many = false) {
   Sim s(c); World w(s);
   s.nodeid = (uint8_t)(1 + c.t.below(127));
   static const uint32_t FREQ[4] = {1000, 100, 10000, 1000000};
@@ -22,7 +22,7 @@ void case_impl(Ctx &c, bool late) {
   w.mandatory();
   add_sync(w, mcob, mcyc);
   w.add_int(0x2101, 1, 1, false, false, true, true, 0x5A, true, false);
-  uint8_t ttype = (uint8_t)(1 + c.t.below(3));
+  uint8_t ttype = many ? (uint8_t)(1 + c.t.below(240)) : (uint8_t)(1 + c.t.below(3));   // mode many-syncs: any synchronous type 1..240
   add_tpdo(w, 0, 0x40000180u + s.nodeid, ttype, 0, 0, {MAPENT(0x2101, 1, 8)}, 1);
   TObj &ro = w.add_int(0x2100, 1, 1, false, false, true, true, 0, true, false);
   add_rpdo(w, 0, 0x200u + s.nodeid, 1, {MAPENT(0x2100, 1, 8)}, 1);     // synchronous RPDO
@@ -48,31 +48,33 @@ void case_impl(Ctx &c, bool late) {
     for (int i = 0; i < k; i++) tick();
     s.clear_tx(); s.start(); s.clear_tx(); mode = 2; c.cls("ticks-before-the-node-was-started");
   }
-  int steps = 0;
+  bool quiet = false;
+  auto frame = [&](uint32_t id, uint8_t dlc) {   // SYNC or near-miss frame
+    uint8_t before = w.content(*robj)[0];
+    s.rx(Frame::mk(id, dlc, {7}));
+    bool issync = (mode == 2 || mode == 3) && id == (mcob & 0x1FFFFFFFu);
+    int app = 0; for (auto &e : s.ev) if (e.k == EV_CANRX) app++;
+    if (!quiet) VLOG(c, "rx %03X dlc %u in mode %d: %s", id, dlc, mode, issync ? "SYNC" : "not SYNC");
+    if (mode != 4) CHECK(c, app == (issync ? 0 : 1), "sync-recognition", "frame %03X (1005h CAN-ID %03X, mode %d) %s", id, mcob & 0x1FFFFFFFu, mode, issync ? "was handed to the application instead of being consumed as SYNC" : "was not handed to the application although it is not the SYNC");
+    // witnesses: every SYNC advances each synchronous PDO's schedule exactly once
+    int tp = 0; for (auto &t : s.tx) { CHECK(c, t.id == TPID, "sync-recognition", "reception of %03X made the node transmit %s", id, t.str().c_str()); tp++; }
+    int etp = 0;
+    if (issync && mode == 3) { synccnt++; if (synccnt == ttype) { etp = 1; synccnt = 0; } }
+    CHECK(c, tp == etp, "sync-advances-tpdo-once", "%s in mode %d: %d synchronous TPDO frame(s) of type %u, expected %d", issync ? "SYNC" : "non-SYNC frame", mode, tp, ttype, etp);
+    uint8_t after = w.content(*robj)[0];
+    if (issync && rp_maybe) { CHECK(c, after == before || after == rp_val, "sync-applies-rpdo-once", "SYNC changed the RPDO-mapped object to %02X (buffered frame carries %02X)", after, rp_val); rp_maybe = false; rp_pending = false; }
+    else if (issync && mode == 3 && rp_pending) { CHECK(c, after == rp_val, "sync-applies-rpdo-once", "SYNC did not apply the buffered synchronous RPDO (object %02X, expected %02X)", after, rp_val); rp_pending = false; }
+    else CHECK(c, after == before, "sync-applies-rpdo-once", "%s changed the RPDO-mapped object from %02X to %02X without a new reception", issync ? "a SYNC" : "a non-SYNC frame", before, after);
+  };
+  int steps = 0; uint32_t longest_run = 0;
   while (!c.t.exhausted() && steps < 200) {
     steps++; c.ops++;
-    static const uint16_t W[9] = {40, 10, 18, 12, 12, 8, 6, 4, 4};
-    uint32_t op = c.t.weighted(W);
+    static const uint16_t W[9] = {40, 10, 18, 12, 12, 8, 6, 4, 4}, WM[10] = {30, 8, 14, 6, 6, 8, 6, 4, 2, 24};
+    uint32_t op = many ? c.t.weighted(WM) : c.t.weighted(W);
     s.clear_tx(); s.clear_ev();
     if (op == 0) tick();
     else if (op == 1) { long n = running && due > s.tick ? due - s.tick + (long)c.t.below(2) : 1 + (long)c.t.below(10); if (n > 1200) n = 1200; for (long i = 0; i < n; i++) tick(); }
-    else if (op == 2) {   // SYNC or near-miss frame
-      uint32_t id = IDS[c.t.below(3)]; uint8_t dlc = c.t.chance(40) ? 1 : 0;
-      uint8_t before = w.content(*robj)[0];
-      s.rx(Frame::mk(id, dlc, {7}));
-      bool issync = (mode == 2 || mode == 3) && id == (mcob & 0x1FFFFFFFu);
-      int app = 0; for (auto &e : s.ev) if (e.k == EV_CANRX) app++;
-      VLOG(c, "rx %03X dlc %u in mode %d: %s", id, dlc, mode, issync ? "SYNC" : "not SYNC");
-      if (mode != 4) CHECK(c, app == (issync ? 0 : 1), "sync-recognition", "frame %03X (1005h CAN-ID %03X, mode %d) %s", id, mcob & 0x1FFFFFFFu, mode, issync ? "was handed to the application instead of being consumed as SYNC" : "was not handed to the application although it is not the SYNC");
-      // witnesses: every SYNC advances each synchronous PDO's schedule exactly once
-      int tp = 0; for (auto &t : s.tx) { CHECK(c, t.id == TPID, "sync-recognition", "reception of %03X made the node transmit %s", id, t.str().c_str()); tp++; }
-      int etp = 0;
-      if (issync && mode == 3) { synccnt++; if (synccnt == ttype) { etp = 1; synccnt = 0; } }
-      CHECK(c, tp == etp, "sync-advances-tpdo-once", "%s in mode %d: %d synchronous TPDO frame(s) of type %u, expected %d", issync ? "SYNC" : "non-SYNC frame", mode, tp, ttype, etp);
-      uint8_t after = w.content(*robj)[0];
-      if (issync && rp_maybe) { CHECK(c, after == before || after == rp_val, "sync-applies-rpdo-once", "SYNC changed the RPDO-mapped object to %02X (buffered frame carries %02X)", after, rp_val); rp_maybe = false; rp_pending = false; }
-      else if (issync && mode == 3 && rp_pending) { CHECK(c, after == rp_val, "sync-applies-rpdo-once", "SYNC did not apply the buffered synchronous RPDO (object %02X, expected %02X)", after, rp_val); rp_pending = false; }
-      else CHECK(c, after == before, "sync-applies-rpdo-once", "%s changed the RPDO-mapped object from %02X to %02X without a new reception", issync ? "a SYNC" : "a non-SYNC frame", before, after);
+    else if (op == 2) { uint32_t id = IDS[c.t.below(3)]; uint8_t dlc = c.t.chance(40) ? 1 : 0; frame(id, dlc);
     } else if (op == 3) { // write 1005h
       if (mode == 4) continue;
       uint32_t nid = IDS[c.t.below(3)] | (c.t.coin() ? 0x40000000u : 0);
@@ -117,6 +119,12 @@ void case_impl(Ctx &c, bool late) {
       CHECK(c, w.content(*robj)[0] == before, "sync-applies-rpdo-once", "a synchronous RPDO took effect before the next SYNC");
       if (mode == 3) { rp_pending = true; rp_maybe = false; rp_val = v; }
       VLOG(c, "synchronous RPDO frame with %02X", v);
+    } else if (op == 9) { // mode many-syncs: a run of k SYNCs with nothing in between - the n-th-SYNC rule must hold beyond 255 and 65535 SYNCs of one OPERATIONAL phase
+      static const uint32_t MARK[5] = {250, 256, 300, 512, 770}; uint32_t kk = c.t.below(16);
+      uint32_t k = kk < 9 ? MARK[c.t.below(5)] + c.t.below(8) : kk == 9 ? 65530 + c.t.below(600) : 1 + c.t.below(300);
+      VLOG(c, "run of %u SYNCs", k);
+      for (uint32_t i = 0; i < k; i++) { s.clear_tx(); s.clear_ev(); quiet = i >= 2; frame(mcob & 0x1FFFFFFFu, 0); } quiet = false;
+      if (mode == 3 && k > longest_run) longest_run = k;
     } else if (op == 8) { // NMT reset: SYNC consumption and production restart as configured by 1005h/1006h
       s.rx(Frame::mk(0, 2, {(uint8_t)(c.t.coin() ? 130 : 129), 0})); mode = 2; rp_pending = rp_maybe = false; synccnt = 0;
       running = false; due = -1;
@@ -129,21 +137,24 @@ void case_impl(Ctx &c, bool late) {
   }
   if (produced >= 2 && accepted >= 1 && refused >= 1) c.nontrivial = true;
   if (produced >= 2) c.cls("two-or-more-syncs-produced");
+  if (longest_run >= 256) c.cls(256 % ttype ? "run-of-256-or-more-syncs-in-operational-type-not-dividing-256" : "run-of-256-or-more-syncs-in-operational"); if (longest_run >= 65536) c.cls("run-of-65536-or-more-syncs-in-operational");
   if (accepted && refused) c.cls("accepted-and-refused-writes");
   char f[32]; snprintf(f, sizeof f, "freq-%u", s.freq); c.cls(f);
 }
 
 void one_case(Ctx &c) { case_impl(c, false); }
 void late_case(Ctx &c) { case_impl(c, true); }
+void many_case(Ctx &c) { case_impl(c, false, true); }
 
 Registrar reg(Prop{
     "C16",
     "Cases: node id 1..127, timer frequency in {100, 1000, 10000, 1000000} Hz, initial 1005h (CAN-ID 80h/81h/100h, bit 30 set or not) and 1006h (0, below the resolution, 1..6 whole ticks); one synchronous TPDO of type 1..3 and one synchronous RPDO as witnesses; "
-    "histories of up to 200 ops: ticks and jumps onto the next due SYNC, SYNC and near-miss frames (DLC 0/1), SDO writes to 1005h (CAN-ID change while producing, start/stop) and 1006h (valid, 0, below the resolution), NMT commands, synchronous RPDO receptions, local writes; a third of the 1006h writes to a running producer are made while application timers occupy every other slot of the timer pool (re-timing needs no second slot). "
+    "histories of up to 200 ops: ticks and jumps onto the next due SYNC, SYNC and near-miss frames (DLC 0/1), SDO writes to 1005h (CAN-ID change while producing, start/stop) and 1006h (valid, 0, below the resolution), NMT commands, synchronous RPDO receptions, local writes; mode many-syncs: TPDO type 1..240 and runs of 1..300, 250..777 or 65530..66129 consecutive SYNCs; a third of the 1006h writes to a running producer are made while application timers occupy every other slot of the timer pool (re-timing needs no second slot). "
     "Oracle: reference model: a frame is SYNC iff id == CAN-ID of 1005h and the mode is PRE-OP/OP (else handed to the application); the producer emits a zero-length frame exactly every period from (re)activation, only in PRE-OP/OP; write verdicts incl. 0609 0030h with the previous value kept and independent of earlier refused writes; every SYNC advances the synchronous TPDO and applies the buffered RPDO exactly once. "
     "Non-trivial: >= 2 SYNCs produced and >= 1 accepted + >= 1 refused write. Distinct = distinct decoded choice sequence.",
     {Mode{"random", one_case, false, 1200000, 16000000, 0, 0, 260, 500},
-     Mode{"late-start", late_case, false, 300000, 4000000, 0, 0, 260, 500}},
+     Mode{"late-start", late_case, false, 300000, 4000000, 0, 0, 260, 500},
+     Mode{"many-syncs", many_case, false, 20000, 400000, 0, 0, 120, 200}},
     {"periods are whole numbers of ticks and of 100 us", "1006h := 0 while producing may be refused (value kept) or accepted (production stops)", "extended identifiers (bit 29) in 1005h are not generated"}});
 
 }  // namespace
